@@ -183,6 +183,8 @@ class Check:
             key = v["unit"]
             if "/shape[" in v["oid"]:
                 key = v["oid"].split("/shape[")[0]  # forwarding units: one replay per method
+            if "/frame-" in v["oid"]:
+                key = v["oid"].split("/frame-")[0]  # frame units: one replay per function
             if key in seen_units:
                 # one replay per unit; further failing obligations of the same unit share it
                 v["replay"], v["concrete"] = seen_units[key]
@@ -263,12 +265,12 @@ class Check:
         rep = v["rep"]
         h = hashlib.sha256(r["id"].encode()).hexdigest()[:10]
         path = os.path.join(REPLAY_DIR, f"{self.prop}-{h}.py")
-        rinfo = rep.get("replayable")
+        rinfo = r.get("replay_info") or rep.get("replayable")
         if rinfo:
             opts = {"max_len": 4, "pin": pin_from_model(r.get("model")), "replay_path": path, "prop": self.prop,
                     "oid": r["id"], "budget_s": 120}
-            res, err = native([os.path.join(VERIF, "rxvc", rinfo["runner"]), "replay", rinfo["module"], rinfo["name"],
-                               json.dumps(opts)])
+            res, err = native([os.path.join(VERIF, "rxvc", rinfo["runner"]), rinfo.get("mode", "replay"), rinfo["module"],
+                               rinfo["name"], json.dumps(opts)])
             if res and res.get("replay"):
                 return path, True
         # no concrete input: the replay file names the obligation and carries the solver output
